@@ -465,6 +465,10 @@ theorem undecided_facts {F p eb} (lay : LexVerif.Proof.ExtRound.Layout F p eb) {
     · rw [if_pos hz] at h; injection h with h; subst h; simp at hv
     · rw [if_neg hz] at h
       have hp2 : -power2 + 1 ≤ 64 := by omega
+      by_cases hinf : power2 ≥ F.C.infinitePower
+      · rw [if_pos hinf] at h; injection h with h; subst h
+        simp only [] at hv; rw [lay.infp] at hv; omega
+      rw [if_neg hinf] at h
       rw [calculateShift_eq lay power2] at h
       obtain ⟨_, _, hs0, hs64, _⟩ := quot_bounds lay.hp (by have := lay.hp64; have := lay.heb; omega)
         hm1 hm2 power2 hp2
